@@ -547,6 +547,13 @@ def _ctl_classes(style):
     class Ctl(HasOutputModule, Writable):
         value = Parameter(datatype=FloatRange())
         target = Parameter(datatype=FloatRange())
+        hookfail = None     # (direction, flavour): the hardware action of set_control_active fails once armed
+
+        def set_control_active(self, active):
+            """the documented hook for switching hardware control; the hardware may refuse"""
+            if self.hookfail and self.hookfail[0] == ('on' if active else 'off'):
+                raise _failure(self.hookfail[1], 'cannot switch control ' + self.hookfail[0])
+            super().set_control_active(active)
 
         if style == 'always':
             def write_target(self, value):
@@ -599,7 +606,7 @@ class ControlWorld(World):
         built = self.ALL[:n1] + self.ALL[3:3 + n2]
         self.outs = {o: self.add(o, out) for o in self.OUTS[:2 if n2 else 1]}
         self.ctls = {c: self.add(c, ctl, output_module=self.OUT_OF[c]) for c in built}
-        self.count, self.salt = 0, variant
+        self.count, self.salt, self.exc = 0, variant, init.get('exc', 'hardware')
         for m in list(self.outs.values()) + list(self.ctls.values()):
             self.startup(m)
         # two of three executions run between an earlier and a later node, the third one alone in its view
@@ -629,6 +636,20 @@ class ControlWorld(World):
         self.count += 1
         value = float(self.count)
         exc = (None, None, 'badvalue', 'hardware', 'other', 'other')[(self.count * 7 + self.salt) % 6]
+        f = a.get('f', 'none')
+        if f != 'none':     # arm the hook fault: on the controllers of that output (off) / on the new one (on)
+            exc = None
+            out = a.get('o') or self.OUT_OF[a['c']]
+            for c, m in self.ctls.items():
+                if self.OUT_OF[c] == out and (f == 'off' or c == a.get('c')):
+                    m.hookfail = (f, self.exc)
+        try:
+            return self._step(a, via, act, value, exc)
+        finally:
+            for m in self.ctls.values():
+                m.hookfail = None
+
+    def _step(self, a, via, act, value, exc):
         if act == 'take':
             self.ctls[a['c']].failnext = exc
             self.access(via, 'w', self.ctls[a['c']], 'target', value)
@@ -859,16 +880,16 @@ def _random_trace1(arg):
             return {'act': act, 'v': rnd.randint(0, 8)}
     else:
         lay = rnd.choice((10, 20, 30, 11, 21, 22, 21, 22))
-        init = {'act': 'init', 'lay': lay}
+        init = {'act': 'init', 'lay': lay, 'exc': rnd.choice(('hardware', 'other'))}
         names = ControlWorld.ALL[:lay // 10] + ControlWorld.ALL[3:3 + lay % 10]
         outs = ControlWorld.OUTS[:2 if lay % 10 else 1]
 
         def pick():
             r = rnd.random()
             if r < 0.45:
-                return {'act': 'take', 'c': rnd.choice(names)}
+                return {'act': 'take', 'c': rnd.choice(names), 'f': rnd.choice(('none', 'none', 'none', 'off', 'on'))}
             if r < 0.65:
-                return {'act': 'self', 'o': rnd.choice(outs)}
+                return {'act': 'self', 'o': rnd.choice(outs), 'f': rnd.choice(('none', 'none', 'off'))}
             return {'act': 'upd', 'c': rnd.choice(names)}
     actions = [pick() for _ in range(n)]
     vias = _vias(sub, actions, 3, rnd)
@@ -929,6 +950,8 @@ def _trace_signature(sub, trace, l):
         sym = cls.symptom(a, ev, prev)
     sig = {'module': sub, 'op': ev.get('ev'), 'symptom': sym}
     sig.update(cls.layout_of(init))
+    if sub == 'LinkedControl' and ev.get('f', 'none') != 'none':
+        sig['fault'] = ev['f']
     if sub == 'LinkedStruct':       # history class: did a struct read fail since the last complete refresh?
         for e in trace[1:max(l - 1, 1)]:
             if e['ev'] == 'rs' and not e['ok']:
@@ -961,6 +984,7 @@ def run(chk):
     if not quick:   # composition root on a tiny instance
         mcs['Linked'] = pool.submit(model_check, 'Linked', 'MC_Linked.cfg', timeout=300, workers=2)
     cfgs = [(m, f'Gen_{m}_{c}.cfg') for c in (('quick',) if quick else ('thorough', 'thorough_wide')) for m in SUBS]
+    cfgs.append(('LinkedControl', f'Gen_LinkedControl_faults_{tier}.cfg'))
     gens = [(m, cfg, pool.submit(run_tlc, 'Gen_' + m, cfg, workers=1, timeout=1100, heap='3g' if quick else '5g'))
             for m, cfg in cfgs]
     cdesign = c18_sched.design(chk, pool)
@@ -1014,6 +1038,8 @@ def run(chk):
                 sig = {'module': sub, 'op': bad['action']['act'], 'symptom': bad['symptom'],
                        'diff': ','.join(_diff(bad))}
                 sig.update(WORLDS[sub].layout_of(init))
+                if bad['action'].get('f', 'none') != 'none':
+                    sig['fault'] = bad['action']['f']
                 chk.violation(sig, {'sub': sub, 'init': init, 'actions': actions, **bad})
         del items[:], _ITEMS[:]
     # 2b operation sequences with hardware faults: enumerated by TLC, executed, judged by Trace_LinkedStruct
